@@ -153,8 +153,18 @@ fn parse_resp_n(n: usize, input: &[u8]) -> Result<Option<(usize, Response<()>)>,
         2 => parser::try_parse_response::<2>(input),
         3 => parser::try_parse_response::<3>(input),
         4 => parser::try_parse_response::<4>(input),
+        5 => parser::try_parse_response::<5>(input),
         8 => parser::try_parse_response::<8>(input),
+        16 => parser::try_parse_response::<16>(input),
+        17 => parser::try_parse_response::<17>(input),
+        20 => parser::try_parse_response::<20>(input),
+        32 => parser::try_parse_response::<32>(input),
+        64 => parser::try_parse_response::<64>(input),
+        100 => parser::try_parse_response::<100>(input),
+        127 => parser::try_parse_response::<127>(input),
         128 => parser::try_parse_response::<128>(input),
+        129 => parser::try_parse_response::<129>(input),
+        256 => parser::try_parse_response::<256>(input),
         _ => panic!("unsupported N"),
     }
 }
@@ -166,8 +176,18 @@ fn parse_partial_n(n: usize, input: &[u8]) -> Result<Option<Response<()>>, Error
         2 => parser::try_parse_partial_response::<2>(input),
         3 => parser::try_parse_partial_response::<3>(input),
         4 => parser::try_parse_partial_response::<4>(input),
+        5 => parser::try_parse_partial_response::<5>(input),
         8 => parser::try_parse_partial_response::<8>(input),
+        16 => parser::try_parse_partial_response::<16>(input),
+        17 => parser::try_parse_partial_response::<17>(input),
+        20 => parser::try_parse_partial_response::<20>(input),
+        32 => parser::try_parse_partial_response::<32>(input),
+        64 => parser::try_parse_partial_response::<64>(input),
+        100 => parser::try_parse_partial_response::<100>(input),
+        127 => parser::try_parse_partial_response::<127>(input),
         128 => parser::try_parse_partial_response::<128>(input),
+        129 => parser::try_parse_partial_response::<129>(input),
+        256 => parser::try_parse_partial_response::<256>(input),
         _ => panic!("unsupported N"),
     }
 }
@@ -179,8 +199,18 @@ fn parse_req_n(n: usize, input: &[u8]) -> Result<Option<(usize, Request<()>)>, E
         2 => parser::try_parse_request::<2>(input),
         3 => parser::try_parse_request::<3>(input),
         4 => parser::try_parse_request::<4>(input),
+        5 => parser::try_parse_request::<5>(input),
         8 => parser::try_parse_request::<8>(input),
+        16 => parser::try_parse_request::<16>(input),
+        17 => parser::try_parse_request::<17>(input),
+        20 => parser::try_parse_request::<20>(input),
+        32 => parser::try_parse_request::<32>(input),
+        64 => parser::try_parse_request::<64>(input),
+        100 => parser::try_parse_request::<100>(input),
+        127 => parser::try_parse_request::<127>(input),
         128 => parser::try_parse_request::<128>(input),
+        129 => parser::try_parse_request::<129>(input),
+        256 => parser::try_parse_request::<256>(input),
         _ => panic!("unsupported N"),
     }
 }
@@ -329,6 +359,21 @@ pub fn apply(f: &mut F, op: &str) -> String {
                 let mut o = vec![0u8; cap];
                 let r = fl.write(&mut o);
                 (F::SendRequest(fl), match r { Ok(n) => format!("bytes 0 {}", hx_out(&o[..n])), Err(e) => errname(&e) })
+            }
+            // headers_map(): the effective headers as a map (one value per name, the last one), sorted by name
+            (F::SendRequest(mut fl), "hmap") => {
+                let r = fl.headers_map();
+                let txt = match r {
+                    Ok(m) => {
+                        let mut v: Vec<(String, Vec<u8>)> = m.iter().map(|(k, val)| (k.as_str().to_string(), val.as_bytes().to_vec())).collect();
+                        v.sort();
+                        let mut t = format!("map {}", v.len());
+                        for (k, val) in v { t.push_str(&format!(" {} {}", k, hx(&val))); }
+                        t
+                    }
+                    Err(e) => errname(&e),
+                };
+                (F::SendRequest(fl), txt)
             }
             (F::SendRequest(fl), "canproceed") => {
                 let b = fl.can_proceed();
@@ -563,6 +608,14 @@ pub fn apply(f: &mut F, op: &str) -> String {
                 let mut o = vec![0u8; cap];
                 let r = c.read(&inp, &mut o);
                 (F::CallRecvBody(c), match r { Ok((i, n)) => format!("bytes {} {}", i, hx_out(&o[..n])), Err(e) => errname(&e) })
+            }
+            (F::CallRecvBody(mut c), "cstopb") => {
+                c.stop_on_chunk_boundary(parts[1] == "1");
+                (F::CallRecvBody(c), "unit".into())
+            }
+            (F::CallRecvBody(c), "cboundary") => {
+                let b = c.is_on_chunk_boundary();
+                (F::CallRecvBody(c), format!("bool {}", b))
             }
             (F::CallRecvBody(c), "cended") => {
                 let b = c.is_ended();
